@@ -174,6 +174,34 @@ Theorem C11_shift_zero_is_identity : forall op x, in_int64 x = true -> Shift op 
 Proof. exact shift_zero. Qed.
 Print Assumptions C11_shift_zero_is_identity.
 
+(* + on strings and arrays associates, with the empty value as unit *)
+Theorem C11_concat_associates : forall a b c ab bc,
+  sliceable a -> Arith ADD a b = Ok ab -> Arith ADD b c = Ok bc -> Arith ADD ab c = Arith ADD a bc.
+Proof. exact concat_assoc. Qed.
+Print Assumptions C11_concat_associates.
+
+Theorem C11_concat_unit :
+  (forall s, Arith ADD (VStr s) (VStr EmptyString) = Ok (VStr s) /\ Arith ADD (VStr EmptyString) (VStr s) = Ok (VStr s)) /\
+  (forall l, Arith ADD (VArr l) (VArr nil) = Ok (VArr l) /\ Arith ADD (VArr nil) (VArr l) = Ok (VArr l)).
+Proof. exact concat_unit. Qed.
+Print Assumptions C11_concat_unit.
+
+(* integer + and * commute, and associate through the 64-bit wrap-around; x - x = 0 and x + 0 = x *)
+Theorem C11_int_add_mul_commute : forall x y,
+  Arith ADD (VInt x) (VInt y) = Arith ADD (VInt y) (VInt x) /\ Arith MUL (VInt x) (VInt y) = Arith MUL (VInt y) (VInt x).
+Proof. exact int_add_mul_comm. Qed.
+Print Assumptions C11_int_add_mul_commute.
+
+Theorem C11_int_add_mul_associate : forall x y z,
+  int_arith ADD (int_arith ADD x y) z = int_arith ADD x (int_arith ADD y z) /\
+  int_arith MUL (int_arith MUL x y) z = int_arith MUL x (int_arith MUL y z).
+Proof. intros x y z. split; [exact (int_add_assoc x y z)|exact (int_mul_assoc x y z)]. Qed.
+Print Assumptions C11_int_add_mul_associate.
+
+Theorem C11_int_sub_self_add_zero : forall x, in_int64 x = true -> int_arith SUB x x = 0 /\ int_arith ADD x 0 = x.
+Proof. exact int_sub_self_add_zero. Qed.
+Print Assumptions C11_int_sub_self_add_zero.
+
 (* non-vacuity *)
 Example C11_examples :
   Arith DIV (VInt (-7)) (VInt 2) = Ok (VInt (-3)) /\
